@@ -75,9 +75,9 @@ fn state_product(reg: &Registry, s: &dyn Subject, body: &Body, seed: u64, cap: u
 }
 
 pub fn run(ctx: &Ctx, reg: &Registry) -> i32 {
-    let n_cases: u64 = ctx.tier.pick(120, 4000);
-    let n_base: u64 = ctx.tier.pick(2, 25);
-    let cap: usize = ctx.tier.pick(600, 20000);
+    let n_cases: u64 = ctx.tier.pick(600, 8000);
+    let n_base: u64 = ctx.tier.pick(3, 20);
+    let cap: usize = ctx.tier.pick(1500, 20000);
     let acc = ctx.par(|shard, n| {
         let mut acc = Acc::new();
         let mut unit = 0u64;
